@@ -559,6 +559,8 @@ class Orchestrator:  # thailint: ignore[srp]
     def _ensure_rules_discovered(self) -> None:
         """Ensure rules have been discovered and registered (lazy initialization)."""
         if not self._rules_discovered:
+            # Rules fetch the shared ignore parser when they are constructed: make it this project's
+            get_ignore_parser(self.project_root)
             self.registry.discover_rules("src.linters")
             self._rules_discovered = True
 
